@@ -50,6 +50,7 @@ Max2(a, b) == IF a > b THEN a ELSE b
 Has(r, f) == f \in DOMAIN r
 Get(r, f, d) == IF Has(r, f) THEN r[f] ELSE d
 Slack == 50    \* ms of scheduling slack granted to timing rules
+LossKey == 100000   \* pathOut[<<a + LossKey, b>>]: when a datagram from a to b was last reported lost
 
 NodeInit(n) ==
   /\ active'      = With(active, n, <<>>)
@@ -516,10 +517,15 @@ LastActivity(n, g) ==
               Has(Rec[i], "gid") /\ Rec[i].gid = g /\ Rec[i].ev \in NetEv /\ Rec[i].node = n} IN
   IF S = {} THEN 0 ELSE Rec[Max(S)].t
 
+(* a keep-alive keeps a connection up only if it comes more often than the connection's idle  *)
+(* timeout (the smaller of the two ends'): one configured at or above it never gets to fire      *)
+KeepsUp(x, n, o) == ka[x] > 0 /\ ka[x] < (IF o \in DOMAIN idle THEN Min2(idle[n], idle[o]) ELSE idle[n])
+(* ... so only a keep-alive that does fire can push a survivor's idle timer out *)
+EffKa(n, o) == IF KeepsUp(n, n, o) THEN ka[n] ELSE 0
 QuietExpiry(n, g) ==
   LET o == Other(n, g) IN
-  /\ ka[n] = 0
-  /\ IF o \in DOMAIN ka THEN ka[o] = 0 ELSE TRUE
+  /\ ~KeepsUp(n, n, o)
+  /\ IF o \in DOMAIN ka THEN ~KeepsUp(o, n, o) ELSE TRUE
   \* QUIC: the smaller of the two ends' timeouts, counted from n's last exchange on g
   /\ Cur.t + 500 >= LastActivity(n, g) + (IF o \in DOMAIN idle THEN Min2(idle[n], idle[o]) ELSE 0)
 
@@ -812,7 +818,9 @@ TrPath ==
   /\ IsEvent("obs.path")
   /\ IF Cur.src \in DOMAIN addrNode /\ Cur.dst \in DOMAIN addrNode
      THEN LET a == addrNode[Cur.src]  b == addrNode[Cur.dst] IN
-          /\ pathOut' = With(pathOut, <<a, b>>, Cur.t)
+          \* (a datagram that was lost is remembered under the key <<a + LossKey, b>> as well)
+          /\ pathOut' = IF Cur.lost THEN With(With(pathOut, <<a, b>>, Cur.t), <<a + LossKey, b>>, Cur.t)
+                        ELSE With(pathOut, <<a, b>>, Cur.t)
           /\ pathIn' = IF Cur.lost THEN pathIn ELSE With(pathIn, <<a, b>>, Cur.t)
      ELSE UNCHANGED <<pathOut, pathIn>>
   /\ UNCHANGED <<vars, pendEv, conns, tasks, spawnQ, nextTick, phase, subs, subPos, addrNode,
@@ -849,7 +857,7 @@ Ignored == {"conn.new", "tmo.set", "tmo.fire", "rpc.finish", "rpc.recv", "rpc.dr
 (* receipt restarts the timer once)                                                            *)
 TrSilentEnd ==
   /\ IsEvent("obs.silent_end")
-  /\ (Cur.t - Cur.since >= idle[N] + ka[N] + 2000) => ~Cur.listed
+  /\ (Cur.t - Cur.since >= idle[N] + EffKa(N, Cur.other) + 2000) => ~Cur.listed
   /\ UNCHANGED <<vars, pendEv, conns, tasks, spawnQ, nextTick, phase, subs, subPos, addrNode,
                  lastAdd, replies, closeT, faultT, idle, ka, runStart, lastSend, quietLen,
                  callListed, pathOut, pathIn, closingH, beginT, shutIdle>>
@@ -893,11 +901,22 @@ Max3(a, b, c) == Max2(a, Max2(b, c))
 (* the peer's address or sent towards it                                    *)
 LastPathActivity(n, o) == Max2(At(pathOut, <<n, o>>), At(pathIn, <<o, n>>))
 
+(* QUIC never lets the idle period be shorter than three times the current probe timeout   *)
+(* (RFC 9000 10.1), and the probe timeout doubles with every probe that goes unanswered: on   *)
+(* a path that lost datagrams shortly before, the survivor's timer may legitimately run for   *)
+(* longer than the configured idle timeout (seen: 10.2 s for a configured 4 s after a loss    *)
+(* burst). The deadline is therefore not required where loss was reported on the path in the  *)
+(* minute before the peer's close and before the survivor last heard from the peer.          *)
+LastLoss(n, o) == Max2(At(pathOut, <<n + LossKey, o>>), At(pathOut, <<o + LossKey, n>>))
 Late ==
   {<<n, g>> \in {<<m, h>> \in (DOMAIN handlers) \X (DOMAIN conns) : h \in handlers[m]} :
      LET o == Other(n, g) IN
      /\ <<o, g>> \in DOMAIN closeT
-     /\ now > Max3(closeT[<<o, g>>], LastSend(n, g), LastPathActivity(n, o)) + idle[n] + ka[n] + 2000}
+     \* (the timer is armed with the probe timeout of the moment: what matters is loss that came
+     \* before the survivor last heard from the peer - path reports come at most every 200 ms)
+     /\ ~(LastLoss(n, o) > 0 /\ LastLoss(n, o) + 60000 >= closeT[<<o, g>>]
+            /\ LastLoss(n, o) <= At(pathIn, <<o, n>>) + 250)
+     /\ now > Max3(closeT[<<o, g>>], LastSend(n, g), LastPathActivity(n, o)) + idle[n] + EffKa(n, o) + 2000}
 
 CloseObservedBy == Late = {}
 
